@@ -65,12 +65,6 @@ theorem temp_retried (env : Env) (l : Limits) (r : Rec) (now : Int) (dur : Nat) 
   rw [classify_of_precheck_none h]
   exact post_temporary_verdict env l r (now + dur) d
 
-/-- Without limits a temporary error is always retried, with exactly the requested delay. -/
-theorem temp_retried_unlimited (env : Env) (l : Limits) (r : Rec) (now : Int) (dur : Nat) (d : Option Int)
-    (ht : l.timeout = none) (hr : l.retries = none) :
-    classify env l r now dur (.temporary d) = retryWith d := by
-  simp [classify, precheck, timedOut, retriesOut, ht, hr, post, lookahead]
-
 /-- A permanent error ends the handler: final, a failure, no delay; the record is finished. -/
 theorem perm_final (env : Env) (l : Limits) (r : Rec) (now : Int) (dur : Nat) (t : Int)
     (h : precheck l r now = none) :
@@ -349,9 +343,12 @@ theorem timeout_refuses (env : Env) (l : Limits) (T : Int) (hT : l.timeout = som
           simp
         · exact ih _ _ a h' (by simpa using hge)
 
-/-- A cycle of a batch that merges at once (`lag = 0`) and is not waiting for sub-handlers. -/
+/-- A cycle whose retry outcome (if any) is merged at once (`lag = 0`; irrelevant for a function that
+    returns or raises PermanentError: those outcomes are final) and that is not waiting for sub-handlers.
+    A SUFFICIENT syntactic guard; the exact condition is the invariant it establishes: every retry
+    outcome has `merged + delay < started + T`. -/
 def Step.plain : Step → Prop
-  | .cycle _ _ x _ lag => lag = 0 ∧ ∀ d, x ≠ .childrenRetry d
+  | .cycle _ _ x _ lag => (lag = 0 ∨ x = .ok ∨ x = .permanent) ∧ ∀ d, x ≠ .childrenRetry d
   | .restart _ => True
 
 /-- "after which it is recorded as failed for good", the part about sleeping: from a fresh record,
@@ -379,7 +376,6 @@ theorem timeout_failed_for_good_partial (env : Env) (l : Limits) (T : Int) (hT :
       · exact ih hrest _ _ hinv t done h hge
     | cycle dt wait x dur lag =>
       obtain ⟨hlag, hx⟩ := hplain (.cycle dt wait x dur lag) List.mem_cons_self
-      subst hlag
       cases hg : r.awakened (now + dt) with
       | false =>
         rw [run_cycle_idle _ _ _ _ _ _ _ _ _ _ hg] at h
@@ -403,7 +399,7 @@ theorem timeout_failed_for_good_partial (env : Env) (l : Limits) (T : Int) (hT :
         · refine ih hrest _ _ ?_ t done h (by simpa using hge)
           -- the invariant is kept by one execution
           simp only [attemptAt_started]
-          cases hfin : (attemptAt env l (now + dt + wait) r x dur 0).out.final with
+          cases hfin : (attemptAt env l (now + dt + wait) r x dur lag).out.final with
           | true => left; rw [attemptAt_finished]; exact hfin
           | false =>
             right
@@ -422,6 +418,12 @@ theorem timeout_failed_for_good_partial (env : Env) (l : Limits) (T : Int) (hT :
               | permanent => simp [post, finalWith] at hfin
               | childrenRetry d => exact absurd rfl (hx d)
               | temporary d =>
+                have hl0 : lag = 0 := by
+                  rcases hlag with h | h | h
+                  · exact h
+                  · cases h
+                  · cases h
+                subst hl0
                 have hro := post_temporary_verdict env l r (now + dt + wait + dur) d
                 rcases hro.2 with ⟨heq, hlt, _⟩ | ⟨heq, _⟩ | ⟨heq, _⟩
                 · rw [heq] at hD
@@ -439,6 +441,12 @@ theorem timeout_failed_for_good_partial (env : Env) (l : Limits) (T : Int) (hT :
                 | ignored => simp [post, hm, finalWith] at hfin
                 | permanent => simp [post, hm, finalWith] at hfin
                 | temporary =>
+                  have hl0 : lag = 0 := by
+                    rcases hlag with h | h | h
+                    · exact h
+                    · cases h
+                    · cases h
+                  subst hl0
                   have hro := post_arbitrary_verdict env l r (now + dt + wait + dur) hm
                   rcases hro.2 with ⟨heq, hlt, _⟩ | ⟨heq, _⟩ | ⟨heq, _⟩
                   · rw [heq] at hD
@@ -500,6 +508,7 @@ theorem env_invocation_within_seen_limits (env : Env) (l : Limits) (steps : List
     intro now hist a h
     cases s with
     | restart dn => rw [runEnv_restart] at h; exact ih _ _ a h
+    | skipped view stored dt => rw [runEnv_skipped] at h; exact ih _ _ a h
     | cycle view stored dt wait x dur lag =>
       cases hg : (viewOf hist view (now + dt)).awakened (now + dt) with
       | false => rw [runEnv_cycle_idle _ _ _ _ _ _ _ _ _ _ _ _ hg] at h; exact ih _ _ a h
@@ -574,63 +583,6 @@ theorem stale_view_reruns_finished_witness :
         [(0, true, true), (0, true, true)] :=
   ⟨⟨.temporary, 60⟩, ⟨none, none, none, none⟩, [.cycle 0 true 0 0 .ok 0 0, .cycle 1 true 3 0 .ok 0 0], by decide⟩
 
-/-! ## Operator restarts between cycles (change handlers, sub-handlers: the record lives on the object) -/
-
-theorem squashFrom_spec (env : Env) (l : Limits) (steps : List Step) :
-    ∀ (now : Int) (acc : Nat) (r : Rec),
-      attempts (run env l (now + acc) r steps) = attempts (run env l now r (squashFrom acc steps)) := by
-  induction steps with
-  | nil => intro now acc r; rfl
-  | cons s rest ih =>
-    intro now acc r
-    cases s with
-    | restart dn =>
-      rw [run_restart, attempts_cons_restarted]
-      simp only [squashFrom]
-      rw [← ih now (acc + dn) r]
-      congr 2
-      omega
-    | cycle dt wait x dur lag =>
-      simp only [squashFrom]
-      have e : now + ↑acc + ↑dt = now + ↑(acc + dt) := by omega
-      cases hg : r.awakened (now + ↑acc + ↑dt) with
-      | true =>
-        rw [run_cycle_awake _ _ _ _ _ _ _ _ _ _ hg, run_cycle_awake _ _ _ _ _ _ _ _ _ _ (by rw [← e]; exact hg)]
-        rw [attempts_cons_att, attempts_cons_att, ← e]
-        congr 1
-        have := ih (attemptAt env l (now + ↑acc + ↑dt + ↑wait) r x dur lag).merged 0
-          (attemptAt env l (now + ↑acc + ↑dt + ↑wait) r x dur lag).recAfter
-        simpa using this
-      | false =>
-        rw [run_cycle_idle _ _ _ _ _ _ _ _ _ _ hg, run_cycle_idle _ _ _ _ _ _ _ _ _ _ (by rw [← e]; exact hg)]
-        rw [attempts_cons_idle, attempts_cons_idle, ← e]
-        have := ih (now + ↑acc + ↑dt) 0 r
-        simpa using this
-
-/-- Restarts anywhere in a history change nothing but the clock: the attempts (times, retry
-    numbers, outcomes, records) are those of the restart-free history in which every downtime is
-    added to the wait before the next cycle. -/
-theorem restart_invariant (env : Env) (l : Limits) (now : Int) (r : Rec) (steps : List Step) :
-    attempts (run env l now r steps) = attempts (run env l now r (squash steps)) ∧
-    ∀ s ∈ squash steps, ∀ dn, s ≠ .restart dn := by
-  constructor
-  · have := squashFrom_spec env l steps now 0 r
-    simpa [squash] using this
-  · have H : ∀ (steps : List Step) (acc : Nat), ∀ s ∈ squashFrom acc steps, ∀ dn, s ≠ .restart dn := by
-      intro steps
-      induction steps with
-      | nil => intro acc s hs; cases hs
-      | cons s' rest ih =>
-        intro acc s hs dn
-        cases s' with
-        | restart d => exact ih _ s hs dn
-        | cycle dt wait x dur lag =>
-          simp only [squashFrom] at hs
-          rcases List.mem_cons.1 hs with rfl | hs'
-          · intro h; cases h
-          · exact ih _ s hs' dn
-    exact H steps 0
-
 /-! ## The in-memory loops: activities, daemons, one retry series of a timer -/
 
 /-- `run_activity`, `_daemon` and `_timer` (per series) are the same fold, woken exactly when
@@ -690,48 +642,48 @@ def Spaced (a b : Attempt) : Prop :=
 
 /-- A timer whose record is a failure for good never executes anything again: every further
     iteration of its loop finds nothing awakened. -/
-theorem timer_failed_never_runs (env : Env) (l : Limits) (iv : Nat) (sh : Bool) (script : List (Raised × Nat)) :
-    ∀ (now : Int) (r : Rec), r.failure = true → attempts (timerRun env l iv sh now r script) = [] := by
+theorem timer_failed_never_runs (env : Env) (l : Limits) (iv : Nat) (sh : Bool) (iu : Int) (script : List (Raised × Nat)) :
+    ∀ (now : Int) (r : Rec), r.failure = true → attempts (timerRun env l iv sh iu now r script) = [] := by
   induction script with
   | nil => intro now r _; rfl
   | cons s rest ih =>
     intro now r h
     obtain ⟨x, dur⟩ := s
     have hr : timerReset r now = r := timerReset_failure h now
-    rcases timerRun_step env l iv sh now r x dur rest with ⟨hg, _⟩ | ⟨_, he⟩
+    rcases timerRun_step env l iv sh iu now r x dur rest with ⟨hg, _⟩ | ⟨_, he⟩
     · rw [hr, not_awakened_of_finished (finished_of_failure h)] at hg; cases hg
     · rw [he, attempts_cons_idle, hr]; exact ih _ _ h
 
 /-- After a final failure (PermanentError, permanent-mode error, retries or timeout exhausted) there is
     no further attempt in the timer's life: an attempt that is followed by another one did not fail. -/
-theorem timer_failure_is_last (env : Env) (l : Limits) (iv : Nat) (sh : Bool) (script : List (Raised × Nat)) :
+theorem timer_failure_is_last (env : Env) (l : Limits) (iv : Nat) (sh : Bool) (iu : Int) (script : List (Raised × Nat)) :
     ∀ (now : Int) (r : Rec),
-      (attempts (timerRun env l iv sh now r script)).Pairwise (fun a _ => a.recAfter.failure = false) := by
+      (attempts (timerRun env l iv sh iu now r script)).Pairwise (fun a _ => a.recAfter.failure = false) := by
   induction script with
   | nil => intro now r; exact List.Pairwise.nil
   | cons s rest ih =>
     intro now r
     obtain ⟨x, dur⟩ := s
-    rcases timerRun_step env l iv sh now r x dur rest with ⟨_, he⟩ | ⟨_, he⟩
+    rcases timerRun_step env l iv sh iu now r x dur rest with ⟨_, he⟩ | ⟨_, he⟩
     · rw [he, attempts_cons_att]
       refine List.Pairwise.cons ?_ (ih _ _)
       intro b hb
-      cases hfa : (attemptAt env l now (timerReset r now) x dur 0).recAfter.failure with
+      cases hfa : (attemptAt env l (timerAt now iu) (timerReset r now) x dur 0).recAfter.failure with
       | false => rfl
-      | true => rw [timer_failed_never_runs _ _ _ _ _ _ _ hfa] at hb; cases hb
+      | true => rw [timer_failed_never_runs _ _ _ _ _ _ _ _ hfa] at hb; cases hb
     · rw [he, attempts_cons_idle]; exact ih _ _
 
 /-- The head attempt of a timer's remaining life continues the running series (same retry number as
     the record) or, after a success, starts a new one with retry 0; after a failure there is none. -/
-theorem timer_head_retry (env : Env) (l : Limits) (iv : Nat) (sh : Bool) (script : List (Raised × Nat)) :
-    ∀ (now : Int) (r : Rec) (b : Attempt), (attempts (timerRun env l iv sh now r script)).head? = some b →
+theorem timer_head_retry (env : Env) (l : Limits) (iv : Nat) (sh : Bool) (iu : Int) (script : List (Raised × Nat)) :
+    ∀ (now : Int) (r : Rec) (b : Attempt), (attempts (timerRun env l iv sh iu now r script)).head? = some b →
       (r.finished = false ∧ b.retry = r.retries) ∨ (r.finished = true ∧ r.failure = false ∧ b.retry = 0) := by
   induction script with
   | nil => intro now r b h; simp [timerRun, attempts] at h
   | cons s rest ih =>
     intro now r b h
     obtain ⟨x, dur⟩ := s
-    rcases timerRun_step env l iv sh now r x dur rest with ⟨hg, he⟩ | ⟨hg, he⟩
+    rcases timerRun_step env l iv sh iu now r x dur rest with ⟨hg, he⟩ | ⟨hg, he⟩
     · rw [he, attempts_cons_att] at h
       simp only [List.head?_cons, Option.some.injEq] at h
       subst h
@@ -746,16 +698,16 @@ theorem timer_head_retry (env : Env) (l : Limits) (iv : Nat) (sh : Bool) (script
       exact ih _ _ b h
 
 /-- `retries = N`, per series: every invocation in a timer's life has a retry number below `N`… -/
-theorem timer_retry_lt (env : Env) (l : Limits) (N : Int) (hN : l.retries = some N) (iv : Nat) (sh : Bool)
+theorem timer_retry_lt (env : Env) (l : Limits) (N : Int) (hN : l.retries = some N) (iv : Nat) (sh : Bool) (iu : Int)
     (script : List (Raised × Nat)) :
-    ∀ (now : Int) (r : Rec) (a : Attempt), a ∈ attempts (timerRun env l iv sh now r script) →
+    ∀ (now : Int) (r : Rec) (a : Attempt), a ∈ attempts (timerRun env l iv sh iu now r script) →
       a.out.invoked = true → a.retry < N := by
   induction script with
   | nil => intro now r a h; cases h
   | cons s rest ih =>
     intro now r a h hi
     obtain ⟨x, dur⟩ := s
-    rcases timerRun_step env l iv sh now r x dur rest with ⟨_, he⟩ | ⟨_, he⟩
+    rcases timerRun_step env l iv sh iu now r x dur rest with ⟨_, he⟩ | ⟨_, he⟩
     · rw [he, attempts_cons_att] at h
       rcases List.mem_cons.1 h with rfl | h'
       · simp only [attemptAt_out] at hi
@@ -767,17 +719,17 @@ theorem timer_retry_lt (env : Env) (l : Limits) (N : Int) (hN : l.retries = some
 /-- … and the retry numbers count up by one inside a series; a new series (retry 0 again) starts
     only right after a success. Hence at most `N` invocations per series, and with
     `timer_failure_is_last` a failed series is the last one. -/
-theorem timer_retry_steps (env : Env) (l : Limits) (iv : Nat) (sh : Bool) (script : List (Raised × Nat)) :
+theorem timer_retry_steps (env : Env) (l : Limits) (iv : Nat) (sh : Bool) (iu : Int) (script : List (Raised × Nat)) :
     ∀ (now : Int) (r : Rec) (n : Nat) (a b : Attempt),
-      (attempts (timerRun env l iv sh now r script))[n]? = some a →
-      (attempts (timerRun env l iv sh now r script))[n + 1]? = some b →
+      (attempts (timerRun env l iv sh iu now r script))[n]? = some a →
+      (attempts (timerRun env l iv sh iu now r script))[n + 1]? = some b →
       (b.retry = a.retry + 1 ∧ a.recAfter.finished = false) ∨ (b.retry = 0 ∧ a.recAfter.success = true) := by
   induction script with
   | nil => intro now r n a b ha; simp [timerRun, attempts] at ha
   | cons s rest ih =>
     intro now r n a b ha hb
     obtain ⟨x, dur⟩ := s
-    rcases timerRun_step env l iv sh now r x dur rest with ⟨_, he⟩ | ⟨_, he⟩
+    rcases timerRun_step env l iv sh iu now r x dur rest with ⟨_, he⟩ | ⟨_, he⟩
     · rw [he, attempts_cons_att] at ha hb
       cases n with
       | succ m =>
@@ -787,7 +739,7 @@ theorem timer_retry_steps (env : Env) (l : Limits) (iv : Nat) (sh : Bool) (scrip
         rw [List.getElem?_cons_zero] at ha
         rw [List.getElem?_cons_succ, ← List.head?_eq_getElem?] at hb
         cases ha
-        rcases timer_head_retry env l iv sh rest _ _ b hb with ⟨hf, hr⟩ | ⟨hf, hn, hr⟩
+        rcases timer_head_retry env l iv sh iu rest _ _ b hb with ⟨hf, hr⟩ | ⟨hf, hn, hr⟩
         · left; exact ⟨by rw [hr]; rfl, hf⟩
         · right
           refine ⟨hr, ?_⟩
@@ -802,17 +754,17 @@ def budget (N : Int) (r : Rec) : Nat :=
   if r.failure then 0 else if r.success then N.toNat else (N - r.retries).toNat
 
 theorem timer_invocations_bound (env : Env) (l : Limits) (N : Int) (hN : l.retries = some N) (iv : Nat)
-    (sh : Bool) (script : List (Raised × Nat)) :
+    (sh : Bool) (iu : Int) (script : List (Raised × Nat)) :
     ∀ (now : Int) (r : Rec),
-      (invokedOf (attempts (timerRun env l iv sh now r script))).length ≤
-        budget N r + N.toNat * ((attempts (timerRun env l iv sh now r script)).filter
+      (invokedOf (attempts (timerRun env l iv sh iu now r script))).length ≤
+        budget N r + N.toNat * ((attempts (timerRun env l iv sh iu now r script)).filter
           (fun a => a.recAfter.success)).length := by
   induction script with
   | nil => intro now r; simp [timerRun, attempts, invokedOf]
   | cons s rest ih =>
     intro now r
     obtain ⟨x, dur⟩ := s
-    rcases timerRun_step env l iv sh now r x dur rest with ⟨hg, he⟩ | ⟨hg, he⟩
+    rcases timerRun_step env l iv sh iu now r x dur rest with ⟨hg, he⟩ | ⟨hg, he⟩
     · rw [he, attempts_cons_att]
       generalize hr0 : timerReset r now = r0 at hg
       have hb0 : budget N r = (N - r0.retries).toNat := by
@@ -828,22 +780,22 @@ theorem timer_invocations_bound (env : Env) (l : Limits) (N : Int) (hN : l.retri
             have hs : r.success = true := by simpa [Rec.finished, hn] using hf
             rw [timerReset_success hf hn]
             simp [budget, hn, hs, fromScratch]
-      generalize hA : attemptAt env l now r0 x dur 0 = A
+      generalize hA : attemptAt env l (timerAt now iu) r0 x dur 0 = A
       have ih' := ih (timerNext iv sh A) A.recAfter
       have hAr : A.recAfter.retries = r0.retries + 1 := by rw [← hA]; rfl
-      have hAo : A.out = classify env l r0 now dur x := by rw [← hA]; rfl
+      have hAo : A.out = classify env l r0 (timerAt now iu) dur x := by rw [← hA]; rfl
       simp only [invokedOf, List.filter_cons] at ih' ⊢
       rw [hb0]
       by_cases hi : A.out.invoked = true
-      · have hp := (classify_invoked_iff env l r0 now dur x).1 (hAo ▸ hi)
-        have hlt := retriesOut_false_of l _ N hN ((precheck_none_iff l r0 now).1 hp).2
+      · have hp := (classify_invoked_iff env l r0 (timerAt now iu) dur x).1 (hAo ▸ hi)
+        have hlt := retriesOut_false_of l _ N hN ((precheck_none_iff l r0 (timerAt now iu)).1 hp).2
         rw [if_pos hi, List.length_cons]
         cases hfa : A.recAfter.failure with
         | true =>
           have hs : A.recAfter.success = false := by
             rw [← hA] at hfa ⊢
             simp only [attemptAt, withOutcome] at hfa ⊢
-            cases h1 : (classify env l r0 now dur x).final <;> cases h2 : ((classify env l r0 now dur x).exc == Exc.none) <;>
+            cases h1 : (classify env l r0 (timerAt now iu) dur x).final <;> cases h2 : ((classify env l r0 (timerAt now iu) dur x).exc == Exc.none) <;>
               simp_all
           simp only [budget, hfa, if_true] at ih'
           rw [hs]; simp only [Bool.false_eq_true, if_false]
@@ -859,54 +811,59 @@ theorem timer_invocations_bound (env : Env) (l : Limits) (N : Int) (hN : l.retri
             simp only [Bool.false_eq_true, if_false]
             omega
       · rw [if_neg hi]
-        have hni : (classify env l r0 now dur x).invoked = false := by
+        have hni : (classify env l r0 (timerAt now iu) dur x).invoked = false := by
           rw [← hAo]; simpa using hi
         have hfa : A.recAfter.failure = true := by
-          rw [← hA]; exact ((limits_refuse env l r0 now dur x _).2 hni).2.2.1
+          rw [← hA]; exact ((limits_refuse env l r0 (timerAt now iu) dur x _).2 hni).2.2.1
         have hsu : A.recAfter.success = false := by
-          rw [← hA]; exact ((limits_refuse env l r0 now dur x _).2 hni).2.2.2
-        rw [timer_failed_never_runs _ _ _ _ _ _ _ hfa] at ih' ⊢
+          rw [← hA]; exact ((limits_refuse env l r0 (timerAt now iu) dur x _).2 hni).2.2.2
+        rw [timer_failed_never_runs _ _ _ _ _ _ _ _ hfa] at ih' ⊢
         simp [hsu]
     · rw [he, attempts_cons_idle]
-      have := ih (timerIdleNext iv sh (timerReset r now) now) (timerReset r now)
+      have := ih (timerIdleNext iv sh (timerReset r now) (timerAt now iu)) (timerReset r now)
       rw [timerReset_idle hg] at this ⊢
       exact this
 
-/-- ONE WHOLE SERIES of a timer is the in-memory loop: from an unfinished record, the timer's attempts
+/-- ONE WHOLE SERIES of a timer is the in-memory loop: from an unfinished record and once the idle wait is over (`iu ≤` the wake-up time), the timer's attempts
     up to and including the first one that finishes the record are exactly `loopRun`'s (same times,
     retry numbers, outcomes, records) — so everything proved for `loopRun` holds for every series. -/
-theorem timer_series_is_loop (env : Env) (l : Limits) (iv : Nat) (sh : Bool) (script : List (Raised × Nat)) :
-    ∀ (now : Int) (r : Rec), r.finished = false →
-      takeSeries (attempts (timerRun env l iv sh (wakeTime r now) r script)) = loopRun env l now r script := by
+theorem timer_series_is_loop (env : Env) (l : Limits) (iv : Nat) (sh : Bool) (iu : Int) (script : List (Raised × Nat)) :
+    ∀ (now : Int) (r : Rec), r.finished = false → iu ≤ wakeTime r now →
+      takeSeries (attempts (timerRun env l iv sh iu (wakeTime r now) r script)) = loopRun env l now r script := by
   induction script with
-  | nil => intro now r _; rfl
+  | nil => intro now r _ _; rfl
   | cons s rest ih =>
-    intro now r hf
+    intro now r hf hiu
     obtain ⟨x, dur⟩ := s
     have hr : timerReset r (wakeTime r now) = r := timerReset_unfinished hf _
-    rcases timerRun_step env l iv sh (wakeTime r now) r x dur rest with ⟨_, he⟩ | ⟨hg, _⟩
-    · rw [he, attempts_cons_att, hr]
+    have hta : timerAt (wakeTime r now) iu = wakeTime r now := timerAt_of_le hiu
+    rcases timerRun_step env l iv sh iu (wakeTime r now) r x dur rest with ⟨_, he⟩ | ⟨hg, _⟩
+    · rw [he, attempts_cons_att, hr, hta]
       simp only [takeSeries, loopRun, hf, Bool.false_eq_true, if_false]
       cases hfa : (attemptAt env l (wakeTime r now) r x dur 0).recAfter.finished with
       | true => simp [loopRun_finished _ _ _ _ _ hfa]
       | false =>
         simp only [Bool.false_eq_true, if_false, timerNext, hfa]
-        rw [ih _ _ hfa]
-    · rw [hr, awakened_wakeTime hf] at hg; cases hg
+        rw [ih _ _ hfa (by
+          have h1 := wakeTime_ge (attemptAt env l (wakeTime r now) r x dur 0).recAfter
+            (attemptAt env l (wakeTime r now) r x dur 0).merged
+          have h2 := attemptAt_merged_ge env l (wakeTime r now) r x dur 0
+          omega)]
+    · rw [hr, hta, awakened_wakeTime hf] at hg; cases hg
 
 /-- `timeout = T` over a timer's whole life: no invocation starts `T` or more after the start of its
     own series (`recAfter.started` is the series' `started`: the record of a series is created by
     `from_scratch` at its first iteration and keeps `started`). -/
-theorem timer_timeout_bound (env : Env) (l : Limits) (T : Int) (hT : l.timeout = some T) (iv : Nat) (sh : Bool)
+theorem timer_timeout_bound (env : Env) (l : Limits) (T : Int) (hT : l.timeout = some T) (iv : Nat) (sh : Bool) (iu : Int)
     (script : List (Raised × Nat)) :
-    ∀ (now : Int) (r : Rec) (a : Attempt), a ∈ attempts (timerRun env l iv sh now r script) →
+    ∀ (now : Int) (r : Rec) (a : Attempt), a ∈ attempts (timerRun env l iv sh iu now r script) →
       a.out.invoked = true → a.time - a.recAfter.started < T := by
   induction script with
   | nil => intro now r a h; cases h
   | cons s rest ih =>
     intro now r a h hi
     obtain ⟨x, dur⟩ := s
-    rcases timerRun_step env l iv sh now r x dur rest with ⟨_, he⟩ | ⟨_, he⟩
+    rcases timerRun_step env l iv sh iu now r x dur rest with ⟨_, he⟩ | ⟨_, he⟩
     · rw [he, attempts_cons_att] at h
       rcases List.mem_cons.1 h with rfl | h'
       · simp only [attemptAt_out] at hi
@@ -916,73 +873,209 @@ theorem timer_timeout_bound (env : Env) (l : Limits) (T : Int) (hT : l.timeout =
       · exact ih _ _ a h' hi
     · rw [he, attempts_cons_idle] at h; exact ih _ _ a h hi
 
-theorem timerRun_lower (env : Env) (l : Limits) (iv : Nat) (sh : Bool) (script : List (Raised × Nat)) :
-    ∀ (now : Int) (r : Rec) (b : Attempt), b ∈ attempts (timerRun env l iv sh now r script) →
+theorem timerRun_lower (env : Env) (l : Limits) (iv : Nat) (sh : Bool) (iu : Int) (script : List (Raised × Nat)) :
+    ∀ (now : Int) (r : Rec) (b : Attempt), b ∈ attempts (timerRun env l iv sh iu now r script) →
       now ≤ b.time ∧ (r.finished = false → ∀ D, r.delayed = some D → D ≤ b.time) := by
   induction script with
   | nil => intro now r b h; cases h
   | cons s rest ih =>
     intro now r b h
     obtain ⟨x, dur⟩ := s
-    rcases timerRun_step env l iv sh now r x dur rest with ⟨hg, he⟩ | ⟨hg, he⟩
+    rcases timerRun_step env l iv sh iu now r x dur rest with ⟨hg, he⟩ | ⟨hg, he⟩
     · rw [he, attempts_cons_att] at h
       rcases List.mem_cons.1 h with rfl | h'
-      · refine ⟨by simp, fun hf D hD => ?_⟩
+      · refine ⟨by simpa using timerAt_ge now iu, fun hf D hD => ?_⟩
         rw [timerReset_unfinished hf] at hg
         simpa using awakened_delayed_le hg hD
       · have h1 := (ih _ _ b h').1
-        have h2 := timerNext_ge iv sh (attemptAt env l now (timerReset r now) x dur 0)
-        have h3 := attemptAt_merged_ge env l now (timerReset r now) x dur 0
+        have h2 := timerNext_ge iv sh (attemptAt env l (timerAt now iu) (timerReset r now) x dur 0)
+        have h3 := attemptAt_merged_ge env l (timerAt now iu) (timerReset r now) x dur 0
+        have h4 := timerAt_ge now iu
         refine ⟨by omega, fun hf D hD => ?_⟩
         rw [timerReset_unfinished hf] at hg
         have := awakened_delayed_le hg hD
         omega
     · rw [he, attempts_cons_idle, timerReset_idle hg] at h
       obtain ⟨h1, h2⟩ := ih _ _ b h
-      have h3 := timerIdleNext_ge iv sh r now
+      have h3 := timerIdleNext_ge iv sh r (timerAt now iu)
+      have h4 := timerAt_ge now iu
       exact ⟨by omega, h2⟩
 
 /-- "never sooner than the requested delay or backoff" over a timer's whole life: every later
     attempt — of the same or of a later series — starts no earlier than the merge of an earlier
     outcome plus the delay it asked for. -/
-theorem timer_delay_respected (env : Env) (l : Limits) (iv : Nat) (sh : Bool) (script : List (Raised × Nat)) :
-    ∀ (now : Int) (r : Rec), (attempts (timerRun env l iv sh now r script)).Pairwise Spaced := by
+theorem timer_delay_respected (env : Env) (l : Limits) (iv : Nat) (sh : Bool) (iu : Int) (script : List (Raised × Nat)) :
+    ∀ (now : Int) (r : Rec), (attempts (timerRun env l iv sh iu now r script)).Pairwise Spaced := by
   induction script with
   | nil => intro now r; exact List.Pairwise.nil
   | cons s rest ih =>
     intro now r
     obtain ⟨x, dur⟩ := s
-    rcases timerRun_step env l iv sh now r x dur rest with ⟨_, he⟩ | ⟨_, he⟩
+    rcases timerRun_step env l iv sh iu now r x dur rest with ⟨_, he⟩ | ⟨_, he⟩
     · rw [he, attempts_cons_att]
       refine List.Pairwise.cons ?_ (ih _ _)
       intro b hb
-      obtain ⟨h1, h2⟩ := timerRun_lower env l iv sh rest _ _ b hb
-      have h3 := timerNext_ge iv sh (attemptAt env l now (timerReset r now) x dur 0)
+      obtain ⟨h1, h2⟩ := timerRun_lower env l iv sh iu rest _ _ b hb
+      have h3 := timerNext_ge iv sh (attemptAt env l (timerAt now iu) (timerReset r now) x dur 0)
       refine ⟨by omega, fun d hd => ?_⟩
-      have hnf : (attemptAt env l now (timerReset r now) x dur 0).recAfter.finished = false := by
+      have hnf : (attemptAt env l (timerAt now iu) (timerReset r now) x dur 0).recAfter.finished = false := by
         rw [attemptAt_finished, attemptAt_out]
         exact classify_delay_not_final env l _ _ dur x d (by simpa using hd)
-      exact h2 hnf _ (attemptAt_delayed env l now _ x dur 0 d hd)
+      exact h2 hnf _ (attemptAt_delayed env l (timerAt now iu) _ x dur 0 d hd)
     · rw [he, attempts_cons_idle]; exact ih _ _
 
 -- non-vacuity: a timer (interval 10) whose function raises PermanentError is executed once; the
 -- following iterations find nothing awakened (the record is kept, the loop sleeps its interval)
-example : timerRun ⟨.temporary, 60⟩ ⟨none, none, none, none⟩ 10 false 0 (fromScratch 0)
+example : timerRun ⟨.temporary, 60⟩ ⟨none, none, none, none⟩ 10 false 0 0 (fromScratch 0)
     [(.permanent, 0), (.permanent, 0), (.ok, 0)] =
     [.att (attemptAt ⟨.temporary, 60⟩ ⟨none, none, none, none⟩ 0 (fromScratch 0) .permanent 0 0),
      .idle 10 true, .idle 20 true] := by decide
 -- with retries = 1 a failing timer is invoked once in its life; after successes it starts new series
-example : (invokedOf (attempts (timerRun ⟨.temporary, 60⟩ ⟨none, none, some 1, none⟩ 10 false 0 (fromScratch 0)
+example : (invokedOf (attempts (timerRun ⟨.temporary, 60⟩ ⟨none, none, some 1, none⟩ 10 false 0 0 (fromScratch 0)
     [(.arbitrary, 0), (.arbitrary, 0), (.arbitrary, 0)]))).length = 1 := by decide
-example : ((attempts (timerRun ⟨.temporary, 60⟩ ⟨none, none, some 2, some 3⟩ 10 false 0 (fromScratch 0)
+example : ((attempts (timerRun ⟨.temporary, 60⟩ ⟨none, none, some 2, some 3⟩ 10 false 0 0 (fromScratch 0)
     [(.ok, 0), (.arbitrary, 0), (.ok, 0), (.arbitrary, 0), (.arbitrary, 0), (.ok, 0)])).map
     (fun a => (a.time, a.retry, a.recAfter.success, a.recAfter.failure))) =
     [(0, 0, true, false), (10, 0, false, false), (13, 1, true, false), (23, 0, false, false), (26, 1, false, true)] := by
   decide
 -- one series of a sharp timer with a timeout: invoked inside T, refused at T, spacing by backoff
-example : ((attempts (timerRun ⟨.temporary, 60⟩ ⟨none, some 25, none, some 10⟩ 7 true 0 (fromScratch 0)
+example : ((attempts (timerRun ⟨.temporary, 60⟩ ⟨none, some 25, none, some 10⟩ 7 true 0 0 (fromScratch 0)
     [(.arbitrary, 1), (.arbitrary, 1), (.arbitrary, 1), (.ok, 0)])).map (fun a => (a.time, a.out.invoked, a.out.exc))) =
     [(0, true, .raised), (11, true, .raised), (22, true, .timeout)] := by decide
+
+/-! ## "T after the FIRST attempt": the code measures from the record's creation (finding C11-F3)
+
+  Full statement (property): the timeout clock starts with the first attempt, hence a handler is
+  recorded as failed by timeout only after at least one invocation.
+  False of the code: `started` is stamped when the record is created (`State.from_scratch()` at the
+  top of the cycle / before a timer's idle wait), the strict pre-check runs when the handler's TURN
+  comes. Exact characterisation + witnesses: -/
+
+/-- The first execution of a record created at `t0` and reached `wait` ticks later is an invocation
+    EXACTLY when `wait < T` and `0 < N` (for the limits that are set). -/
+theorem fresh_invoked_iff (env : Env) (l : Limits) (t0 : Int) (wait dur : Nat) (x : Raised) :
+    (classify env l (fromScratch t0) (t0 + wait) dur x).invoked = true ↔
+      ((∀ T, l.timeout = some T → (wait : Int) < T) ∧ (∀ N, l.retries = some N → 0 < N)) := by
+  rw [classify_invoked_iff, precheck_none_iff]
+  simp only [timedOut, retriesOut, Rec.runtime, fromScratch]
+  cases l.timeout <;> cases l.retries <;> simp <;> omega
+
+/-- Guarded positive form for timers: the first iteration of a series (fresh or after a success) is
+    an invocation when the idle wait is shorter than the timeout and `retries > 0`. -/
+theorem timer_first_of_series_invoked_partial (env : Env) (l : Limits) (iv : Nat) (sh : Bool) (iu now : Int)
+    (r : Rec) (x : Raised) (dur : Nat) (rest : List (Raised × Nat))
+    (hr : r.finished = true ∧ r.failure = false ∨ r = fromScratch now)
+    (hT : ∀ T, l.timeout = some T → timerAt now iu - now < T) (hN : ∀ N, l.retries = some N → 0 < N) :
+    ∃ a, (timerRun env l iv sh iu now r ((x, dur) :: rest)).head? = some (.att a) ∧ a.out.invoked = true ∧
+      a.retry = 0 ∧ a.time = timerAt now iu := by
+  have hr0 : timerReset r now = fromScratch now := by
+    rcases hr with ⟨hf, hn⟩ | rfl
+    · exact timerReset_success hf hn now
+    · exact timerReset_unfinished rfl now
+  rcases timerRun_step env l iv sh iu now r x dur rest with ⟨_, he⟩ | ⟨hg, _⟩
+  · rw [he, hr0]
+    refine ⟨_, rfl, ?_, rfl, rfl⟩
+    have hw := timerAt_ge now iu
+    have key := (fresh_invoked_iff env l now (timerAt now iu - now).toNat dur x).2
+      ⟨fun T h => by have := hT T h; omega, hN⟩
+    have e : now + ((timerAt now iu - now).toNat : Int) = timerAt now iu := by omega
+    rw [e] at key
+    exact key
+  · rw [hr0, fromScratch_awakened] at hg; cases hg
+
+/-- NEGATION (finding C11-F3, timers): `idle = 2`, `timeout = 1`, `interval = 1`: the series' record is
+    created at 0, the idle wait ends at 2: `HandlerTimeoutError` before the first call; the failed record
+    is kept for ever: the function is NEVER invoked. -/
+theorem timer_idle_timeout_never_invoked_witness :
+    ∃ (env : Env) (l : Limits) (script : List (Raised × Nat)), l.timeout = some 1 ∧
+      ((timerRun env l 1 false 2 0 (fromScratch 0) script).map
+        (fun e => match e with
+          | .att a => (a.time, a.out.invoked, a.out.exc == .timeout, a.recAfter.failure)
+          | .idle t d => (t, false, false, d)
+          | _ => (0, false, false, false))) =
+        [(2, false, true, true), (3, false, false, true), (4, false, false, true)] :=
+  ⟨⟨.temporary, 60⟩, ⟨none, some 1, none, none⟩, [(.ok, 0), (.ok, 0), (.ok, 0)], rfl, by decide⟩
+
+/-- NEGATION (finding C11-F3, batches): `timeout = 10`; a sibling handler of the same cycle runs 50
+    ticks first (`wait = 50`): the handler is recorded as timed out without ever being invoked. -/
+theorem timed_out_before_first_invocation_witness :
+    ∃ (env : Env) (l : Limits) (steps : List Step), l.timeout = some 10 ∧
+      invocations (run env l 0 (fromScratch 0) steps) = [] ∧
+      ((attempts (run env l 0 (fromScratch 0) steps)).map (fun a => (a.time, a.out.exc == .timeout, a.recAfter.failure))) =
+        [(50, true, true)] :=
+  ⟨⟨.temporary, 60⟩, ⟨none, some 10, none, none⟩, [.cycle 0 50 .ok 0 0, .cycle 5 0 .ok 0 0], rfl, by decide, by decide⟩
+
+/-! ## A timer across re-spawns (finding C11-F4)
+
+  Full statement (property, docs/timers.rst "stops forever"): after a permanent failure the timer's
+  function is never invoked again, over the timer's whole existence for the object.
+  Proved per `_timer` task: `timer_failed_never_runs`, `timer_failure_is_last` (guard: no re-spawn).
+  False across a stop-with-reason + re-spawn (filter mismatch and re-match, operator pause/resume): -/
+
+/-- NEGATION (finding C11-F4): the function raises PermanentError at 0; the task is stopped (filters
+    mismatch) and spawned again at 6: invoked again, `retry = 0`, from a fresh record. -/
+theorem timer_respawn_runs_again_witness :
+    ∃ (env : Env) (l : Limits),
+      ((attempts (respawnRun env l 1 false [(0, [(.permanent, 0), (.ok, 0)]), (6, [(.permanent, 0)])])).map
+        (fun a => (a.time, a.retry, a.out.invoked, a.recAfter.failure))) = [(0, 0, true, true), (6, 0, true, true)] :=
+  ⟨⟨.temporary, 60⟩, ⟨none, none, none, none⟩, by decide⟩
+
+/-! ## In-memory loops never sleep past their timeout -/
+
+/-- Every retry outcome of an in-memory loop (activity, daemon, timer series; no sub-handlers there)
+    is due before `started + T`: the loop never sleeps through its own deadline, so
+    `timeout_failed_for_good_partial`'s guard is a fact for the self-driven drivers. -/
+theorem loop_never_sleeps_past_timeout (env : Env) (l : Limits) (T : Int) (hT : l.timeout = some T)
+    (script : List (Raised × Nat)) (hx : ∀ s ∈ script, ∀ d, s.1 ≠ .childrenRetry d) :
+    ∀ (now : Int) (r : Rec) (a : Attempt), a ∈ loopRun env l now r script →
+      ∀ d, a.out.delay = some d → a.merged + d < r.started + T := by
+  induction script with
+  | nil => intro now r a h; cases h
+  | cons s rest ih =>
+    intro now r a h d hd
+    obtain ⟨x, dur⟩ := s
+    cases hf : r.finished with
+    | true => simp [loopRun, hf] at h
+    | false =>
+      simp only [loopRun, hf, Bool.false_eq_true, if_false] at h
+      rcases List.mem_cons.1 h with rfl | h'
+      · simp only [attemptAt_out] at hd
+        cases hp : precheck l r (wakeTime r now) with
+        | some e => rw [classify_of_precheck_some hp] at hd; cases hd
+        | none =>
+          have hinvk : (classify env l r (wakeTime r now) dur x).invoked = true := (classify_invoked_iff ..).2 hp
+          have hm : (attemptAt env l (wakeTime r now) r x dur 0).merged = wakeTime r now + dur := by
+            simp only [attemptAt, endTime_invoked hinvk]; omega
+          rw [hm]
+          rw [classify_of_precheck_none hp] at hd
+          have fin : ∀ (dl : Option Int) (extra : Int) (o : Outcome), RetriedOrLimit l r (wakeTime r now + dur) o dl extra →
+              o.delay = some d → dl = some d ∧ r.runtime (wakeTime r now + dur) + extra < T := by
+            intro dl extra o ho hod
+            rcases ho.2 with ⟨heq, hlt, _⟩ | ⟨heq, _⟩ | ⟨heq, _⟩
+            · rw [heq] at hod; exact ⟨by simpa [retryWith] using hod, hlt T hT⟩
+            · rw [heq] at hod; simp [finalWith] at hod
+            · rw [heq] at hod; simp [finalWith] at hod
+          cases x with
+          | ok => simp [post, finalWith] at hd
+          | permanent => simp [post, finalWith] at hd
+          | childrenRetry d' => exact absurd rfl (hx (_, dur) List.mem_cons_self d')
+          | temporary d' =>
+            obtain ⟨h1, h2⟩ := fin _ _ _ (post_temporary_verdict env l r _ d') hd
+            subst h1
+            simp only [Rec.runtime, orZero] at h2
+            omega
+          | arbitrary =>
+            cases hm' : l.mode env with
+            | ignored => simp [post, hm', finalWith] at hd
+            | permanent => simp [post, hm', finalWith] at hd
+            | temporary =>
+              obtain ⟨h1, h2⟩ := fin _ _ _ (post_arbitrary_verdict env l r _ hm') hd
+              simp only [Option.some.injEq] at h1
+              subst h1
+              simp only [Rec.runtime] at h2
+              omega
+      · have := ih (fun s hs => hx s (List.mem_cons_of_mem _ hs)) _ _ a h' d hd
+        simpa using this
 
 /-! ## The retry number counts the handler's OWN attempts (whatever else happens in between)
 
@@ -1014,12 +1107,6 @@ theorem retry_counts_own_attempts_partial (env : Env) (l : Limits) (steps : List
           have := ih _ _ m a h
           rw [attemptAt_rec_retries] at this
           omega
-
-/-- An idle cycle changes nothing: the rest of the history is the history of the SAME record. -/
-theorem uninvoked_state_unchanged (env : Env) (l : Limits) (now : Int) (r : Rec) (dt wait : Nat) (x : Raised)
-    (dur lag : Nat) (rest : List Step) (h : r.awakened (now + dt) = false) :
-    attempts (run env l now r (.cycle dt wait x dur lag :: rest)) = attempts (run env l (now + dt) r rest) := by
-  rw [run_cycle_idle _ _ _ _ _ _ _ _ _ _ h, attempts_cons_idle]
 
 /-- A verdict "retries exceeded" names the limit and comes only after the stored count reached it. -/
 theorem classify_exc_retries (env : Env) (l : Limits) (r : Rec) (now : Int) (dur : Nat) (x : Raised)
@@ -1130,43 +1217,6 @@ theorem retries_verdict_only_after_N_partial (env : Env) (l : Limits) (now t0 : 
     omega
 
 /-! ## "is retried" and "is recorded as failed for good" as events (progress) -/
-
-/-- A due, unfinished handler within its limits IS invoked in the cycle: the head event of the run is
-    an invocation at its turn, with the stored count as retry number. -/
-theorem due_is_invoked (env : Env) (l : Limits) (now : Int) (r : Rec) (dt wait : Nat) (x : Raised) (dur lag : Nat)
-    (rest : List Step) (hf : r.finished = false) (hd : ∀ D, r.delayed = some D → D ≤ now + dt)
-    (hp : precheck l r (now + dt + wait) = none) :
-    ∃ a, (run env l now r (.cycle dt wait x dur lag :: rest)).head? = some (.att a) ∧
-      a.out.invoked = true ∧ a.time = now + dt + wait ∧ a.retry = r.retries := by
-  rw [run_cycle_awake _ _ _ _ _ _ _ _ _ _ (awakened_of hf hd)]
-  exact ⟨_, rfl, (classify_invoked_iff ..).2 hp, rfl, rfl⟩
-
-/-- "is retried": after an attempt whose outcome was not final, a cycle at or after the requested
-    delay, still within the limits, invokes the handler again, with the next retry number. -/
-theorem retried_as_event (env : Env) (l : Limits) (now : Int) (r : Rec) (x : Raised) (dur lag : Nat)
-    (dt' wait' : Nat) (x' : Raised) (dur' lag' : Nat) (rest : List Step)
-    (hnf : (attemptAt env l now r x dur lag).out.final = false)
-    (hd : ∀ d, (attemptAt env l now r x dur lag).out.delay = some d → d ≤ dt')
-    (hp : precheck l (attemptAt env l now r x dur lag).recAfter
-            ((attemptAt env l now r x dur lag).merged + dt' + wait') = none) :
-    ∃ b, (run env l (attemptAt env l now r x dur lag).merged (attemptAt env l now r x dur lag).recAfter
-            (.cycle dt' wait' x' dur' lag' :: rest)).head? = some (.att b) ∧
-      b.out.invoked = true ∧ b.retry = r.retries + 1 := by
-  have hfin : (attemptAt env l now r x dur lag).recAfter.finished = false := by
-    rw [attemptAt_finished]; exact hnf
-  obtain ⟨b, h1, h2, _, h4⟩ := due_is_invoked env l _ _ dt' wait' x' dur' lag' rest hfin
-    (by
-      intro D hD
-      cases hdl : (attemptAt env l now r x dur lag).out.delay with
-      | none =>
-        simp only [attemptAt, withOutcome_delayed] at hD hdl
-        rw [hdl] at hD; cases hD
-      | some d =>
-        rw [attemptAt_delayed env l now r x dur lag d hdl] at hD
-        cases hD
-        have := hd d hdl
-        omega) hp
-  exact ⟨b, h1, h2, by rw [h4]; rfl⟩
 
 /-- A raised kind that can never count as success. -/
 def Failing (env : Env) (l : Limits) (x : Raised) : Prop :=
